@@ -59,6 +59,7 @@ import (
 	"github.com/tikv/client-go/v2/config/retry"
 	tikverr "github.com/tikv/client-go/v2/error"
 	"github.com/tikv/client-go/v2/internal/logutil"
+	"github.com/tikv/client-go/v2/internal/simhook"
 	"github.com/tikv/client-go/v2/internal/unionstore"
 	tikv "github.com/tikv/client-go/v2/kv"
 	"github.com/tikv/client-go/v2/metrics"
@@ -466,6 +467,7 @@ func (txn *KVTxn) spawn(f func()) {
 		}
 		defer txn.store.WaitGroup().Done()
 
+		simhook.Yield("go.txn.spawn")
 		f()
 	}()
 }
@@ -482,6 +484,7 @@ func (txn *KVTxn) spawnWithStorePool(f func()) error {
 		}
 		defer txn.store.WaitGroup().Done()
 
+		simhook.Yield("go.txn.spawnWithStorePool")
 		f()
 	})
 	if err != nil {
@@ -1878,6 +1881,7 @@ func (txn *KVTxn) asyncPessimisticRollback(ctx context.Context, keys [][]byte, s
 	txn.store.WaitGroup().Add(1)
 	go func() {
 		defer txn.store.WaitGroup().Done()
+		simhook.Yield("go.txn.asyncPessimisticRollback")
 		if val, err := util.EvalFailpoint("beforeAsyncPessimisticRollback"); err == nil {
 			if s, ok := val.(string); ok {
 				switch s {
